@@ -633,7 +633,10 @@ func (p *InlineParser) parseBackslash(state *inlineState, start int) (end int) {
 		})
 		return end
 	}
-	end = start + 2
+	// Not an escape: the backslash is literal.
+	// The following character is left to the caller,
+	// since it may be a multi-byte character.
+	end = start + 1
 	state.addToRoot(&Inline{
 		kind: TextKind,
 		span: Span{
